@@ -116,3 +116,28 @@ pub fn sym_objective() -> crate::SingleObjective {
     assume(!x.is_nan() && !(x.is_infinite() && x.is_sign_negative()));
     crate::SingleObjective::try_from(x).unwrap()
 }
+
+/// A cheaper problem type: the encoding is a single tag byte.
+pub struct ScalarProblem;
+impl crate::problems::Problem for ScalarProblem {
+    type Encoding = u8;
+    type Objective = crate::SingleObjective;
+    fn name(&self) -> &str { "ScalarProblem" }
+}
+/// individual with symbolic tag and symbolic legal objective
+pub fn sym_individual() -> crate::Individual<ScalarProblem> {
+    let t: u8 = sym();
+    crate::Individual::new(t, sym_objective())
+}
+/// population of `n` symbolic evaluated individuals
+pub fn sym_population(n: usize) -> Vec<crate::Individual<ScalarProblem>> {
+    let mut v = Vec::with_capacity(n);
+    for _ in 0..n { v.push(sym_individual()); }
+    v
+}
+/// number of occurrences of (tag, objective) in a population
+pub fn occurrences(pop: &[crate::Individual<ScalarProblem>], x: &crate::Individual<ScalarProblem>) -> usize {
+    let mut c = 0;
+    for i in pop { if i.solution() == x.solution() && i.get_objective() == x.get_objective() { c += 1; } }
+    c
+}
